@@ -18,12 +18,6 @@ Proof. repeat decide equality. Defined.
 Lemma pb_eq_dec : forall x y : N * tblock, {x = y} + {x <> y}.
 Proof. intros. decide equality; [apply tblock_eq_dec|apply N.eq_dec]. Defined.
 
-Ltac perm :=
-  apply (Permutation_count_occ pb_eq_dec); intro;
-  repeat (rewrite ?count_occ_app; change (@count_occ (N * tblock) pb_eq_dec (?y :: ?l))
-    with (@count_occ (N * tblock) pb_eq_dec ([y] ++ l)));
-  repeat rewrite count_occ_app; lia.
-
 (* ====================================================================== *)
 (* Insertion sort on addresses                                            *)
 (* ====================================================================== *)
@@ -379,4 +373,159 @@ Proof.
       rewrite !in_app_iff in *. cbn [In] in *.
       destruct Hin as [Hin|[[E|[]]|Hin]]; auto.
       injection E as E _. rewrite Ea in E. apply mul_bsz_S_inj in E. congruence.
+Qed.
+
+(* ====================================================================== *)
+(* Part C — one-write safety and cuts of a list of safe writes              *)
+(* ====================================================================== *)
+
+Definition safe_write (f : files) (w : wr) : Prop :=
+  match w with
+  | TApp b => block_ok (length (ft f)) (length (fl f)) b
+  | TSet a b => exists i old, a = N.of_nat (S i) * bsz /\ nth_error (ft f) i = Some old /\
+                  block_below old b /\ block_ok (length (ft f)) (length (fl f)) b
+  | LApp s => (exists i, (i < length (ft f))%nat /\ fst s = N.of_nat (S i) * bsz) /\
+              lptr_ok (length (fl f)) (snd s)
+  | THdr _ | LHdr => True
+  end.
+
+Fixpoint safe_all (ws : list wr) (f : files) : Prop :=
+  match ws with
+  | [] => True
+  | w :: ws' => safe_write f w /\ safe_all ws' (apply w f)
+  end.
+
+Lemma apply_all_app : forall a b f, apply_all (a ++ b) f = apply_all b (apply_all a f).
+Proof. intros. unfold apply_all. apply fold_left_app. Qed.
+
+Lemma apply_all_cons : forall w ws f, apply_all (w :: ws) f = apply_all ws (apply w f).
+Proof. reflexivity. Qed.
+
+Lemma safe_all_app : forall a b f, safe_all (a ++ b) f <-> safe_all a f /\ safe_all b (apply_all a f).
+Proof.
+  induction a as [|w a IH]; intros b f; cbn [app safe_all].
+  - cbn. tauto.
+  - rewrite apply_all_cons, IH. tauto.
+Qed.
+
+Lemma tptr_ok_mono : forall n m a, (n <= m)%nat -> tptr_ok n a -> tptr_ok m a.
+Proof. intros n m a Hnm [->|(i & Hi & ->)]; [left; reflexivity|right; exists i; split; [lia|reflexivity]]. Qed.
+
+Lemma lptr_ok_mono : forall n m a, (n <= m)%nat -> lptr_ok n a -> lptr_ok m a.
+Proof. intros n m a Hnm [->|(i & Hi & ->)]; [left; reflexivity|right; exists i; split; [lia|reflexivity]]. Qed.
+
+Lemma block_ok_mono : forall nt nl mt ml b, (nt <= mt)%nat -> (nl <= ml)%nat ->
+  block_ok nt nl b -> block_ok mt ml b.
+Proof.
+  intros nt nl mt ml b Ht Hl (H1 & H2 & H3 & H4 & H5 & H6).
+  repeat split; eauto using tptr_ok_mono, lptr_ok_mono.
+Qed.
+
+Lemma ptr_below_refl : forall x, ptr_below x x.
+Proof. intro. right. reflexivity. Qed.
+
+Lemma ptr_below_trans : forall x y z, ptr_below x y -> ptr_below y z -> ptr_below x z.
+Proof. unfold ptr_below. intros x y z [-> | ->] [-> | ->]; auto. Qed.
+
+Lemma block_below_refl : forall b, block_below b b.
+Proof.
+  intro b. unfold block_below, bit_below, head_below.
+  repeat split; auto using ptr_below_refl; lia.
+Qed.
+
+Lemma block_below_trans : forall a b c, block_below a b -> block_below b c -> block_below a c.
+Proof.
+  intros a b c (Ha1 & Ha2 & Ha3 & Ha4 & Ha5 & Ha6 & Ha7 & Ha8 & Ha9 & Ha10 & Ha11)
+               (Hb1 & Hb2 & Hb3 & Hb4 & Hb5 & Hb6 & Hb7 & Hb8 & Hb9 & Hb10 & Hb11).
+  unfold block_below, bit_below, head_below in *.
+  repeat split; eauto using ptr_below_trans; try congruence; lia.
+Qed.
+
+Lemma files_below_refl : forall f, files_below f f.
+Proof.
+  intro f. split; [|split]; [lia| |exists []; rewrite app_nil_r; reflexivity].
+  intros i b c E1 E2. rewrite E1 in E2. injection E2 as <-. apply block_below_refl.
+Qed.
+
+Lemma files_below_trans : forall f g h, files_below f g -> files_below g h -> files_below f h.
+Proof.
+  intros f g h (L1 & B1 & (m1 & M1)) (L2 & B2 & (m2 & M2)). split; [|split].
+  - lia.
+  - intros i b c Eb Ec.
+    assert (Hi : (i < length (ft g))%nat).
+    { assert (i < length (ft f))%nat by (apply nth_error_Some; congruence). lia. }
+    destruct (nth_error (ft g) i) as [x|] eqn:Ex; [|apply nth_error_None in Ex; lia].
+    eapply block_below_trans; eauto.
+  - exists (m1 ++ m2). rewrite M2, M1, app_assoc. reflexivity.
+Qed.
+
+Lemma safe_write_step : forall f w, no_dangling f -> safe_write f w ->
+  no_dangling (apply w f) /\ files_below f (apply w f).
+Proof.
+  intros f w [Hb Hs] Hw. destruct w as [b|a b|n|[tg pv]|]; cbn [apply safe_write] in *.
+  - (* TApp *) split.
+    + split; cbn [ft fl].
+      * intros b' Hin. rewrite app_length. cbn [length].
+        apply in_app_iff in Hin. destruct Hin as [Hin|[<-|[]]].
+        -- eapply block_ok_mono; [| |apply Hb; exact Hin]; lia.
+        -- eapply block_ok_mono; [| |exact Hw]; lia.
+      * intros j tg pv E. destruct (Hs j tg pv E) as ((i & Hi & ->) & Hp). split; [|exact Hp].
+        exists i. split; [rewrite app_length; lia|reflexivity].
+    + split; [|split]; cbn [ft fl].
+      * rewrite app_length. lia.
+      * intros i x y E1 E2.
+        rewrite nth_error_app1 in E2 by (apply nth_error_Some; congruence).
+        rewrite E1 in E2. injection E2 as <-. apply block_below_refl.
+      * exists []. rewrite app_nil_r. reflexivity.
+  - (* TSet *) destruct Hw as (k & old & -> & Ek & Hbel & Hok). rewrite tidx_S.
+    assert (Hk : (k < length (ft f))%nat) by (apply nth_error_Some; congruence).
+    split.
+    + split; cbn [ft fl]; rewrite set_nth_length.
+      * intros b' Hin. apply set_nth_In in Hin. destruct Hin as [->|Hin]; auto.
+      * exact Hs.
+    + split; [|split]; cbn [ft fl].
+      * rewrite set_nth_length. lia.
+      * intros i x y E1 E2. destruct (Nat.eq_dec i k) as [->|Hne].
+        -- rewrite set_nth_same in E2 by exact Hk. congruence.
+        -- rewrite set_nth_other in E2 by exact Hne. rewrite E1 in E2. injection E2 as <-.
+           apply block_below_refl.
+      * exists []. rewrite app_nil_r. reflexivity.
+  - (* THdr *) split; [split; assumption|]. split; [|split]; cbn [ft fl]; [lia| |exists []; rewrite app_nil_r; reflexivity].
+    intros i x y E1 E2. rewrite E1 in E2. injection E2 as <-. apply block_below_refl.
+  - (* LApp *) cbn [fst snd] in Hw. destruct Hw as [Htg Hpv]. split.
+    + split; cbn [ft fl].
+      * intros b' Hin. rewrite app_length. eapply block_ok_mono; [| |apply Hb; exact Hin]; lia.
+      * intros j tg' pv' E.
+        destruct (Nat.lt_ge_cases j (length (fl f))) as [Hj|Hj].
+        -- rewrite nth_error_app1 in E by exact Hj. eapply Hs; eauto.
+        -- rewrite nth_error_app2 in E by exact Hj.
+           destruct (j - length (fl f))%nat as [|q] eqn:Eq; [|destruct q; discriminate E].
+           cbn in E. injection E as <- <-. split; [exact Htg|].
+           eapply lptr_ok_mono; [|exact Hpv]. lia.
+    + split; [|split]; cbn [ft fl]; [lia| |eexists; reflexivity].
+      intros i x y E1 E2. rewrite E1 in E2. injection E2 as <-. apply block_below_refl.
+  - (* LHdr *) split; [split; assumption|apply files_below_refl].
+Qed.
+
+Lemma safe_all_end : forall ws f, no_dangling f -> safe_all ws f ->
+  no_dangling (apply_all ws f) /\ files_below f (apply_all ws f).
+Proof.
+  induction ws as [|w ws IH]; intros f Hn Hs.
+  - split; [exact Hn|apply files_below_refl].
+  - destruct Hs as [Hw Hs]. destruct (safe_write_step f w Hn Hw) as [Hn1 Hb1].
+    destruct (IH _ Hn1 Hs) as [Hn2 Hb2]. rewrite apply_all_cons.
+    split; [exact Hn2|eapply files_below_trans; eauto].
+Qed.
+
+(* every cut of a list of safe writes is free of dangling pointers and below the end *)
+Theorem safe_all_cuts : forall ws f, no_dangling f -> safe_all ws f -> forall k,
+  no_dangling (apply_all (firstn k ws) f) /\
+  files_below (apply_all (firstn k ws) f) (apply_all ws f).
+Proof.
+  induction ws as [|w ws IH]; intros f Hn Hs k.
+  - rewrite firstn_nil. split; [exact Hn|apply files_below_refl].
+  - destruct k as [|k].
+    + cbn [firstn]. split; [exact Hn|]. apply (safe_all_end (w :: ws) f Hn Hs).
+    + cbn [firstn]. rewrite !apply_all_cons. destruct Hs as [Hw Hs].
+      destruct (safe_write_step f w Hn Hw) as [Hn1 _]. apply IH; assumption.
 Qed.
